@@ -119,14 +119,16 @@ def run(ctx):
                 spec[out] = AGGS[an]
                 cols.append((out, None, an))
             elif form == 'name':
-                spec[out] = vf
-                cols.append((out, (vf,), 'list'))
+                vfj = rng.choice(valf)          # each output field has its own source field
+                spec[out] = vfj
+                cols.append((out, (vfj,), 'list'))
             elif form == 'multi' and len(valf) > 1 and an == 'list':
                 spec[out] = (tuple(valf), list)
                 cols.append((out, tuple(valf), 'list'))
             else:
-                spec[out] = (vf, AGGS[an])
-                cols.append((out, (vf,), an))
+                vfj = rng.choice(valf)
+                spec[out] = (vfj, AGGS[an])
+                cols.append((out, (vfj,), an))
         mkey = key if rng.random() < 0.8 else None
         aggarg = spec if rng.random() < 0.5 else [(o,) + (v if isinstance(v, tuple) else (v,)) for o, v in spec.items()]
         line = 'multiagg %s %s %s %s' % (util.enc_key(mkey), proto.enc_list(
